@@ -143,6 +143,8 @@ func TestCheck(t *testing.T) {
 		runC06(t, env, rep)
 	case "C07":
 		runC07(t, env, rep)
+	case "C18":
+		runC18(t, env, rep)
 	default:
 		t.Fatalf("unknown VERIF_PROP %q", env.Prop)
 	}
